@@ -164,6 +164,7 @@ class Machine(TreeEval):
         self.syms = {}
         self._nreq = 0
         self.requested = []
+        self.callmemo = {}
 
     def snapshot(self):
         return (tuple(sorted(self.vars.items(), key=repr)), tuple(sorted(((k, _freeze(v)) for k, v in self.iters.items()), key=repr)),
@@ -181,9 +182,11 @@ class Machine(TreeEval):
 
     # ------------------------------------------------------------------ running
     def start(self):
+        self.callmemo = {}
         return self._finish(self._seq(self.tree, 0))
 
     def resume(self, key):
+        self.callmemo = {}
         path, _lv = self.heads[key]
         level = len(path) - 1
         depth = sum(1 for p in path[:level] if p[2] == "inlined")
@@ -495,12 +498,22 @@ class Machine(TreeEval):
             raise Unsupported("parameter %s" % (e[2],))
         if k == "str":
             return e
+        if k == "named":
+            b = self._named_bytes(e[1])
+            if b is not None:
+                return ("bytes", b.decode("latin-1"))
         if k == "lit":
             return e[1]
         if k in ("tbl", "index") and e[1][0] == "named":
             v = self._str_table(e[1][1], self.ev(e[2]))
             if v is not None:
                 return v
+        if k in ("tbl", "index"):
+            b0 = e[1]
+            while b0[0] in ("deref", "ref"):
+                b0 = b0[1]
+            if b0[0] in ("alloc", "named"):
+                return self.ev(("ld", 0, e))
         if k == "ld":
             place = e[2]
             if place[0] in ("tbl", "index") and place[1][0] == "named":
@@ -517,6 +530,13 @@ class Machine(TreeEval):
                 b0 = place[1]
                 while b0[0] in ("deref", "ref"):
                     b0 = b0[1]
+                if b0[0] == "named":
+                    nb = self._named_bytes(b0[1])
+                    if nb is not None:
+                        i = self.ev(place[2])
+                        if not (0 <= i < len(nb)):
+                            raise Panic("index out of bounds")
+                        return nb[i]
                 if b0[0] == "alloc":
                     a = self.facts.allocs.get(str(b0[1])) or self.facts.allocs.get(b0[1])
                     if a and not a.get("relocs"):
@@ -551,10 +571,14 @@ class Machine(TreeEval):
             return self.ev(e[1])
         if k == "cast":
             v = self.ev(e[2])
-            if isinstance(v, int) and isinstance(e[1], str) and e[1].startswith("IntToInt"):
-                w = {"u8": 8, "u16": 16, "u32": 32, "char": 32}.get(e[1][len("IntToInt"):])
+            if isinstance(v, int) and isinstance(e[1], str) and e[1].startswith("IntToInt") and len(e) > 3:
+                # narrowing (and sign-changing) integer casts truncate to the target width
+                w = {"u8": 8, "u16": 16, "u32": 32, "u64": 64, "usize": 64, "i8": 8, "i16": 16, "i32": 32, "i64": 64, "isize": 64}.get(e[3])
                 if w:
-                    return v & ((1 << w) - 1)
+                    v &= (1 << w) - 1
+                    if e[3].startswith("i") and v >> (w - 1):
+                        v -= 1 << w
+                    return v
             return v
         if k == "call":
             name = e[1]
@@ -580,6 +604,39 @@ class Machine(TreeEval):
             if last == "from_residual":
                 v = self.ev(e[2][0])
                 return v
+            if len(e) > 3 and e in self.callmemo:
+                return self.callmemo[e]
+            if last in ("position", "any", "all", "find") and len(e[2]) == 2 and ("Iterator" in name or "iter::Iter" in name):
+                key = self._iter_key(e[2][0])
+                if key is not None and key in self.iters and self.iters[key][0] == "seq":
+                    it = self.iters[key]
+                    src = ("iter", "seq", it[1], it[2])
+                    it[2] = len(it[1])        # the adapter consumes the iterator (no rule reads it afterwards)
+                else:
+                    src = self.ev(e[2][0])
+                if isinstance(src, tuple) and src and src[0] == "bytes":
+                    src = ("iter", "seq", tuple(ord(c) for c in src[1]), 0)
+                if isinstance(src, tuple) and src[0] == "iter" and src[1] == "seq":
+                    items = src[2][src[3]:]
+                    res = {"position": ("agg", "None", ()), "find": ("agg", "None", ()), "any": 0, "all": 1}[last]
+                    for i_, x in enumerate(items):
+                        hit = bool(self.call_closure(e[2][1], (x,)))
+                        if last == "position" and hit:
+                            res = ("agg", "Some", (i_,))
+                            break
+                        if last == "find" and hit:
+                            res = ("agg", "Some", (x,))
+                            break
+                        if last == "any" and hit:
+                            res = 1
+                            break
+                        if last == "all" and not hit:
+                            res = 0
+                            break
+                    if len(e) > 3:
+                        self.callmemo[e] = res      # the value of this (stamped) call, however often the expression is read in this step
+                    return res
+                raise Stuck("%s over %r" % (last, src)[:80])
             if last == "enumerate" and "Iterator" in name:
                 src = self.ev(e[2][0])
                 if isinstance(src, tuple) and src and src[0] == "iter":
@@ -865,6 +922,35 @@ class Machine(TreeEval):
             return ("agg", _last(f[1]), tuple(args))     # a tuple-variant constructor used as a function
         return self.call_closure(f, args)
 
+    def _named_bytes(self, name):
+        """Bytes of a constant that is (a reference to) a byte string, or None."""
+        c = self.facts.consts.get(name)
+        ty = self.facts.ty_str(c["ty"]) if c else ""
+        if "u8" not in ty:
+            return None
+        if c and "ptr" in c["v"] and "alloc" in c["v"]["ptr"]:
+            a = self.facts.allocs.get(str(c["v"]["ptr"]["alloc"]))
+            if a is not None and not a.get("relocs"):
+                return bytes.fromhex(a["bytes"])[int(c["v"]["ptr"].get("off", 0)):]
+            return None
+        try:
+            raw, relocs = self.facts.table_bytes(name)
+        except KeyError:
+            return None
+        if relocs and len(raw) in (8, 16):
+            off, target = relocs[0]
+            if isinstance(target, dict) and "alloc" in target:
+                a = self.facts.allocs.get(str(target["alloc"]))
+                if a is not None and not a.get("relocs"):
+                    b = bytes.fromhex(a["bytes"])[int(target.get("off", 0)):]
+                    if len(raw) == 16:
+                        b = b[:int.from_bytes(raw[8:16], "little")]
+                    return b
+            return None
+        if not relocs:
+            return raw
+        return None
+
     def _str_table(self, name, i):
         """Element i of a constant `[&str; N]` (fat pointers with relocations), or None if the table is not one."""
         try:
@@ -901,7 +987,11 @@ class Machine(TreeEval):
                 break
         if fn is None:
             raise Stuck("closure body of " + str(path))
-        r = run_function(self.facts, fn, {i + 2: a for i, a in enumerate(args)})
+        params = {i + 2: a for i, a in enumerate(args)}
+        if len(clo) > 3 and clo[3]:
+            # captured variables: the environment is the closure's first parameter
+            params[1] = ("agg", "closure", tuple(self._tryev(x) for x in clo[3]))
+        r = run_function(self.facts, fn, params, deref_self=True)
         return r[0]
 
 
